@@ -29,7 +29,12 @@ ASSUMPTIONS_E1 = [
 
 def knobs_from(rng, tier):
     trace = rng.choice(['none', 'none', 'none', 'call', 'call', 'line'])
+    # drawn from a generator of its own (seeded from rng's state without advancing it): one run in ten has one slow
+    # scheduler pool (sim/kernel.py slow_pool)
+    r2 = random.Random(repr(rng.getstate()[1][:8]))
+    slow = [r2.randint(1, 8), r2.choice([0.05, 0.2, 0.5])] if r2.random() < 0.1 else None
     return {
+        'slow_pool': slow,
         'preempt_p': rng.choice([0.0, 0.02, 0.1, 0.3]),
         'stall_p': rng.choice([0.0, 0.0, 0.002, 0.01]),
         'trace': trace,
